@@ -53,7 +53,7 @@ func (*c13) Level() string                   { return "exploration" }
 func (*c13) Decode(raw []byte) (any, error) { return decodeInto[C13Scenario](raw) }
 
 func (p *c13) Gen(seed uint64, i int, tier string) (any, bool) {
-	n := 4000
+	n := 12000
 	if tier == "thorough" {
 		n = 300000
 	}
